@@ -23,7 +23,8 @@ direct: griffe.load(pkg, allow_inspection=False) vs griffe.load(pkg, force_inspe
     kinds, shared labels, parameters, base class paths, docstrings, alias final targets at every nesting level, modulo the allowed
     differences encoded in compare_trees(); the bases of every class three ways (static, inspected, cls.__bases__); which statement binds a
     name next to wildcard imports (static vs imported module); every third package loaded again on both agents with a passive extension that
-    walks the trees with Extension.generic_visit / generic_inspect from node hooks: neither tree may change.  Anything else must satisfy a known-gap classifier confirmed by the model's
+    walks the trees with Extension.generic_visit / generic_inspect from node hooks: neither tree may change; histories of loads sharing the
+    lines_collection / modules_collection options (dynamic+static in both orders, static-edit-static) against loads with fresh collections.  Anything else must satisfy a known-gap classifier confirmed by the model's
     verdict (F4, F6, F8, F9, F10, F12) or is a VIOLATION.
     corpus/C17: the witnesses of the repaired defects (F1 F2 F3 F5 F7, twin modules, built-in _x modules, wrapped class methods), on which
     the two agents must now agree completely.
@@ -91,9 +92,10 @@ RULE = ("seeded random importable packages (7-11 modules over 3 nesting levels, 
         "(one or two per module, sources with and without __all__, transitive), class-body imports, `import x.y`, self imports, imports of "
         "built-in underscore modules, names re-bound in branches that are not taken (try-import/except fallback, `if sys.version_info`, on "
         "imports, functions, classes, values) and TYPE_CHECKING-import/else-fallback, methods below functools.wraps decorators, __all__, "
-        "folders without __init__.py inside the regular packages (data files and / or Python files) imported by the package, optional underscore twin modules, modules named like the stdlib / top-level module they import "
+        "computed parameter defaults (nested calls with keyword arguments, lists, dicts, lambdas), folders without __init__.py inside the regular packages (data files and / or Python files) imported by the package, optional underscore twin modules, modules named like the stdlib / top-level module they import "
         "from, quoted annotations that do not resolve at runtime), loaded statically and dynamically and imported; a zoo of live objects for "
-        "every ladder rung and every object constructor; 150+ small packages interleaving definitions and wildcard imports; exhaustive "
+        "every ladder rung and every object constructor; 150+ small packages interleaving definitions and wildcard imports; 40+ small packages loaded "
+        "in histories sharing lines_collection / modules_collection (both orders, edit in between); exhaustive "
         "relative-import grid depth<=4 x level<=5; random docstring line lists; random dotted paths. non-trivial package = has at least one "
         "import chain; distinct by rendered source")
 TRUSTED = ["translator harness/translate/c17_tables.py (whitelisted AST shapes of runtime.py / inspector.py / visitor.py / enumerations.py; fails closed)",
@@ -291,6 +293,12 @@ def _shadow_table():
 
 SHADOWS = _shadow_table()
 FALLBACK = "-17"          # the value of every fallback assignment (no generated value equals it)
+def expr_default(rng, mk):
+    """A default expression that evaluates at import time: calls with keyword arguments nested in keyword arguments, lists, dicts, lambdas."""
+    return rng.choice([f"{mk}(x={mk}(y=1))", f"{mk}(1, p={mk}(q={mk}(r=2)))", f"[{mk}(z=1), {mk}(w={mk}(v=3))]", f"{mk}(**{mk}(a=1))", f"{mk}(a=1)",
+                       f"(lambda: {mk}(k={mk}(j=2)))", "{'k': %s(x=%s(y=1))}" % (mk, mk), f"{mk}({mk}(a=1))", f"{mk}(a={mk}(1))", f"{mk}(a=[{mk}(b=2)])"])
+
+
 TAGS = {"core": "c", "_core": "u", "util": "t", "inner": "i", "deep": "d", "leaf": "l", "sub": "s"}
 VALUES = ["1", repr("s"), "(1, 2)", "None", "[1]", "{1: 2}", "1.5", "True"]
 
@@ -316,6 +324,7 @@ class Gen:
         self.ann_pool = ["Missing", "N0"]
         self.need_sys = set()  # modules that test sys.version_info
         self.need_wrap = set() # modules that use the functools.wraps decorator helper
+        self.need_mk = set()   # modules whose functions have computed defaults (calls with keyword arguments, nested)
         self.ns = {}           # module -> {name bound when its body has run: {"cat": "thing" | "ext" | "assigned" | "module-import", ...}}
         self.all_of = {}       # module -> its __all__ (list) or None
         self.static_only = {}  # module -> names the visitor records although nothing binds them (annotation-only)
@@ -471,6 +480,15 @@ class Gen:
                 body += ["if sys.version_info < (3, 0):", f"    {name} = {FALLBACK}"]
                 self.need_sys.add(mod)
                 self.meta[f"{mod}.{name}"].update({"rebind": [["def", "top"], ["assign", ["then", "false"]]], "fallback": [1]})
+        if rng.random() < 0.3:
+            self.need_mk.add(mod)
+            name = f"e0{tag}"
+            d = gen_doc(rng)
+            mk = f"_mk{tag}"
+            body.append(f"def {name}(a, b={expr_default(rng, mk)}, c={expr_default(rng, mk)}, *, d, e={expr_default(rng, mk)}):")
+            body += render_doc(d, 4) or ["    pass"]
+            self.meta[f"{mod}.{name}"] = {"form": ["func", "mod", False], "doc": d, "bound": False, "exprdefaults": True}
+            exports[name] = {"kind": "func", "defmod": mod, "defname": name, "chain": []}
         # imports from lower modules come after this module's own functions/values and before its classes (imported bases)
         body += self.gen_imports(mod, init, exports)
         local_classes = []          # [(name, info)] in definition order
@@ -550,6 +568,9 @@ class Gen:
             body.append(f"__all__ = {all_names!r}")
             self.meta[f"{mod}.__all__"] = {"form": ["value", "mod"], "value": repr(all_names)}
         L += [stmt for _, stmt, _ in stars]
+        if mod in self.need_mk:
+            body[:0] = [f"def _mk{tag}(*r, **w):", "    return dict(w, _=1)"]
+            self.meta[f"{mod}._mk{tag}"] = {"form": ["func", "mod", False], "doc": None, "sig": "*r, **w", "bound": False}
         if mod in self.need_wrap:
             need_functools = True
             body[:0] = [f"def _wr{tag}(fn):", "    @functools.wraps(fn)", "    def w(*a, **k):", "        return fn(*a, **k)", "    return w"]
@@ -739,6 +760,11 @@ class Gen:
                     self.meta[f"{path}.{name}"] = {"form": ["annotated", "cls", 1 if cv else 0, 1 if hv else 0]}
         forms = ["method", "method", "async_method", "static", "async_static", "classm", "async_classm", "prop", "prop_setter", "cached", "init"]
         forms += [f for f in ("wrapped_method", "wrapped_classm", "wrapped_static") if rng.random() < 0.25]
+        if rng.random() < 0.12:
+            self.need_mk.add(mod)
+            mk = "_mk" + ("p" if mod == self.pkg else TAGS[mod.rsplit(".", 1)[1]])
+            L += [f"{ind1}def me(self, a, b={expr_default(rng, mk)}, *, c={expr_default(rng, mk)}, d):", f"{ind1}    pass"]
+            self.meta[f"{path}.me"] = {"form": ["func", "cls", False], "doc": None, "bound": False, "exprdefaults": True}
         wr = "_wr" + ("p" if mod == self.pkg else TAGS[mod.rsplit(".", 1)[1]])
         for i, form in enumerate(rng.sample(forms, rng.randint(1, 5))):
             name = "__init__" if form == "init" else f"m{i}"
@@ -1029,7 +1055,9 @@ def summarize(obj):
             continue
         d = {"t": m.kind.value, "labels": sorted(m.labels), "doc": None if m.docstring is None else m.docstring.value}
         if m.kind.value == "function":
-            d["params"] = [[p.name, KINDS.get(p.kind.value) if p.kind else None, None if p.default is None else str(p.default), bool(p.required)]
+            # (the text of a computed default is the static agent's, its value's repr the dynamic one's: only literal defaults are compared as text)
+            d["params"] = [[p.name, KINDS.get(p.kind.value) if p.kind else None,
+                            None if p.default is None else (str(p.default) if re.fullmatch(r"-?\d+|\(\)|\{\}", str(p.default)) else "<expr>"), bool(p.required)]
                            for p in m.parameters]
         if m.kind.value == "class":
             d["bases"] = [base_path(m, b) for b in m.bases]
@@ -2184,6 +2212,64 @@ def check_binders(ctx, n):
         sys.path.remove(str(root))
 
 
+def check_shared_collections(ctx, n):
+    """Histories of loads that share the documented `lines_collection=` / `modules_collection=` options: a dynamic and a static load in
+    both orders, and a static load, an edit of a source file, a static load again.  Every load must give the tree that a load with fresh
+    collections gives at that moment (static analysis describes the current source; sharing a collection is not an input of the skeleton)."""
+    import griffe
+    root = ctx.scratch / "shared"
+    root.mkdir(parents=True, exist_ok=True)
+    S = summarize_root
+    seps = ["\x0c", "\x0b", "\x1c", "\x85", " "]           # line boundaries of str.splitlines other than \n
+
+    def fresh(pkg, **kw):
+        return griffe.load(pkg, search_paths=[str(root)], **kw)
+
+    for i in range(n):
+        pkg = f"c17s_{ctx.seed}_{i}"
+        mk = "_mk"
+        doc = lambda: "alpha" + ctx.rng.choice(seps) + "beta"
+        mod_src = lambda k: (f'"""{doc()}"""\ndef _mk(*r, **w):\n    return dict(w, _=1)\n'
+                             f'def f{k}(a, b={expr_default(ctx.rng, mk)}, *, c={ctx.rng.randint(1, 9)}):\n    """{doc()}\n    second"""\n'
+                             f'class K{k}:\n    """{doc()}"""\n    def m(self, q={expr_default(ctx.rng, mk)}):\n        pass\n')
+        files = {f"{pkg}/__init__.py": f'"""{doc()}"""\nfrom .core import f0\n', f"{pkg}/core.py": mod_src(0), f"{pkg}/util.py": mod_src(1)}
+        for rel, text in files.items():
+            q = root / rel
+            q.parent.mkdir(parents=True, exist_ok=True)
+            q.write_text(text, encoding="utf8")
+        ctx.case({"files": files, "shared": True}, True)
+        try:
+            a, b = S(fresh(pkg, allow_inspection=False)), S(fresh(pkg, force_inspection=True))
+            histories = []
+            lc, mc = griffe.LinesCollection(), griffe.ModulesCollection()
+            share = ctx.rng.choice([{"lines_collection": lc}, {"lines_collection": lc, "modules_collection": mc}, {"modules_collection": mc}])
+            d1 = S(fresh(pkg, force_inspection=True, **share))
+            s1 = S(fresh(pkg, allow_inspection=False, **share))
+            histories.append(("dynamic-then-static " + "+".join(sorted(share)), s1 == a and d1 == b, {"static": s1 == a, "dynamic": d1 == b}))
+            lc2 = griffe.LinesCollection()
+            s2 = S(fresh(pkg, allow_inspection=False, lines_collection=lc2))
+            d2 = S(fresh(pkg, force_inspection=True, lines_collection=lc2))
+            histories.append(("static-then-dynamic lines_collection", s2 == a and d2 == b, {"static": s2 == a, "dynamic": d2 == b}))
+            # an edit between two static loads that share the lines collection (and, for half of them, one loader)
+            lc3 = griffe.LinesCollection()
+            before = S(fresh(pkg, allow_inspection=False, lines_collection=lc3))
+            edited = files[f"{pkg}/core.py"].replace("def f0(a, b=", "def f0(a, new_required, b=") + f'def added(z={expr_default(ctx.rng, mk)}):\n    """{doc()}"""\n'
+            (root / pkg / "core.py").write_text(edited, encoding="utf8")
+            after_shared = S(fresh(pkg, allow_inspection=False, lines_collection=lc3))
+            after_fresh = S(fresh(pkg, allow_inspection=False))
+            histories.append(("static, edit, static with the same lines_collection", after_shared == after_fresh and before == a, {"stale": after_shared == before}))
+            for what, ok, detail in histories:
+                ctx.count("shared_collection_histories")
+                ctx.observe("shared_collections", what.split(" ")[0])
+                if not ok:
+                    ctx.property_failure({"files": files, "pkg": pkg, "history": what, "edited_core": edited if "edit" in what else None},
+                                         {"what": "a load sharing collections with an earlier load differs from a load with fresh collections", "history": what, **detail})
+        except Exception as e:  # noqa: BLE001
+            ctx.property_failure({"files": files, "pkg": pkg, "history": "shared collections"}, {"load raised": f"{type(e).__name__}: {e}"})
+        finally:
+            purge_modules(pkg)
+
+
 # ------------------------------------------------------------------------------------------------------------------
 # witnesses of the known findings, replayed on the implementation every run
 
@@ -2266,6 +2352,7 @@ def explore(ctx):
     check_same_components(ctx, ctx.budget(400, 4000))
     check_docstrings(ctx, ctx.budget(600, 6000))
     check_binders(ctx, ctx.budget(150, 1200))
+    check_shared_collections(ctx, ctx.budget(40, 300))
     run_packages(ctx, ctx.budget(110, 900), "q" if ctx.quick else "t")
     if not ctx.quick:
         sample = [["form", f] for f in ALL_FORMS] + [["stored", f] for f in ALL_FORMS] + [
@@ -2307,6 +2394,7 @@ def search(ctx):
         ctx.scratch.mkdir(parents=True, exist_ok=True)
         run_packages(ctx, 120, "s")
         check_binders(ctx, 150)
+        check_shared_collections(ctx, 40)
     finally:
         ctx.driver = driver
 
